@@ -253,7 +253,7 @@ func canon(r *core.Rand, t uint8, dotu bool) [][]byte {
 	m.Version = "9P2000.u"
 	m.Uname, m.Aname, m.Ename, m.Name, m.Ext = "glenda", "/tmp", "file not found", "newfile.txt", "target"
 	m.Wname = []string{"usr", "glenda", "lib", "profile"}
-	m.Wqid = []wire.Qid{{0x80, 1, 2}, {0, 3, 4}, {2, 5, 6}}
+	m.Wqid = []wire.Qid{{Type: 0x80, Version: 1, Path: 2}, {Type: 0, Version: 3, Path: 4}, {Type: 2, Version: 5, Path: 6}}
 	m.Stat.Name, m.Stat.Uid, m.Stat.Gid, m.Stat.Muid, m.Stat.Ext = "profile", "glenda", "sys", "none", "x"
 	if t == wire.Rread || t == wire.Twrite {
 		m.Data = []byte("hello, world\n")
